@@ -2,6 +2,7 @@ package world
 
 import (
 	"fmt"
+	"verif/harness/vals"
 
 	"gorgonia.org/tensor"
 )
@@ -95,6 +96,27 @@ func opFilled(w *World, st *Step) execResult {
 		w.noteLib()
 	}
 	d, _ := r.(*tensor.Dense)
+	// the point of Filled: every masked position of the result holds the fill value (the general comparison leaves the
+	// values under a result's mask open, so this is checked here)
+	if err == nil && d != nil && t.IsMasked() {
+		var fill interface{} = vals.FillValue(w.Cfg.D)
+		if j != 0 {
+			fill = w.Cfg.Pal.Const(w.Cfg.D, j)
+		}
+		shape := []int(t.Shape())
+		for k := 0; k < prod(shape); k++ {
+			c := coordOf(k, shape)
+			m, merr := t.MaskAt(c...)
+			if merr != nil || !m {
+				continue
+			}
+			got, gerr := d.At(c...)
+			w.Stats.Compared++
+			if gerr != nil || !vals.Eq(got, fill) {
+				return execResult{div: w.div(0, "filled", fmt.Sprintf("Filled: masked element %v of the result is %v (%v), expected the fill value %v (shape %v)", c, got, gerr, fill, shape))}
+			}
+		}
+	}
 	return execResult{err: err, ret: d}
 }
 
